@@ -246,7 +246,7 @@ ADDENDA = {
         'leaves the rest (framing_recv_translated), raises on a CR not followed by LF, raises ConnectionError at end of stream, blocks (never spins) '
         'on an open empty stream; any list of CR-free messages is received intact and in order (framing_stream_translated); on ASCII text the outcomes '
         'are those of the byte-level model (framing_recv_model). Assumed: UTF-8 encode/decode are inverse (the translated socket carries characters).',
- 'C09': THREADS_COMMON + 'Translated/ThreadsSeatA.lean, ThreadsSeatB.lean and ThreadsSeatC.lean (the whole SeatThread.run: seat_run_translated = admission + seatReactive; refused and not-ready paths) and ThreadsSeatD.lean (the CAPSTONE translated_seat_thread_is_session_program: for every playable scenario the translated seat thread consumes its two streams completely and performs exactly the operations of sessionProg sc (.seat p), with no check hypothesis left — the session's ready texts pass the translated check by kernel evaluation of the finite families and induction over the session): the translated seat thread — _check_message, _deal, '
+ 'C09': THREADS_COMMON + 'Translated/ThreadsSeatA.lean, ThreadsSeatB.lean and ThreadsSeatC.lean (the whole SeatThread.run: seat_run_translated = admission + seatReactive; refused and not-ready paths) and ThreadsSeatD.lean (the CAPSTONE translated_seat_thread_is_session_program: for every playable scenario the translated seat thread consumes its two streams completely and performs exactly the operations of sessionProg sc (.seat p), with no check hypothesis left — the ready texts of the session pass the translated check by kernel evaluation of the finite families and induction over the session): the translated seat thread — _check_message, _deal, '
         '_bidding_phase (while-loop, every queue length), _playing_phase (13 x 4 loop), _connect — performs exactly the operations of the reactive model '
         '(seatDealR, seatBiddingR, seatPlayingR) which C09.seat_thread_follows_its_queue identifies with the session program; hypotheses: the '
         'client\'s "ready" messages pass the server\'s own check (stated with the same regular-expression engine the translated code calls).',
